@@ -40,8 +40,8 @@ PROPS = {
                 'grant_to_client_that_already_died_unnoticed', 'holder_connection_lost', 'waiter_connection_lost',
                 'client_spinning_on_eof', 'final_state_checked'],
         batches=[
-            lock('fault-free', 1500, 40000, faults=False),
-            lock('disconnect-enumeration', 600, 9000, faults=True),
+            lock('fault-free', 800, 20000, faults=False),
+            lock('disconnect-enumeration', 192, 3200, faults=True),
         ],
         wall=dict(quick=75, thorough=900),
         assumptions=['clients are well-formed (real comms.acquire / comms.release / Connector); one acquire per connection',
